@@ -217,9 +217,10 @@ PROPERTIES = {
         "explanation": "the usage check of ir.EntityTemplate.__init__ is proved against a per-event contract stated for ARBITRARY ghost maps (writer / user per root): a write or push to an input port, a second writer (context or instance output, in either order, slices and views through their root), or a variable / intermediate used by a second context is rejected, otherwise the maps are updated for exactly that root; the instance loop treats every output port (also two outputs of the same instance) as a driver. By induction on the event stream a normal return implies one driver per root. Known findings: the always-block of a sequential context is not a separate driver.",
         "assumptions": COMMON_ASSUME + [
             "identity maps (IdMap) are maps keyed by object identity; the ghost maps answer membership arbitrarily but consistently",
-            "every IR statement reports all objects it writes / reads through visit_objects (per-class completeness is not under contract)",
+            "every IR statement reports all objects it writes / reads through visit_objects: decided class by class by the mechanical enumeration contracts.c07_visit.visit_completeness (real constructors, marker objects, report + replace); Event / EventGroup / Statemachine / Sequential are covered through their parts only",
             "NOT decided: driver sets recomputed from the emitted text; placement of inline entities by the tracer; VhdlScope.declare's sibling-scope rule and ConvertInstance.apply's concurrent-context rules have no contract yet",
         ],
+        "extra": ["contracts.c07_visit.visit_completeness"],
         "canaries": [
             {"name": "push-is-a-write", "contract": "cohdl._core._ir._repr:EntityTemplate.__init__", "case": "ctx-event:signal:PUSH", "file": "cohdl/_core/_ir/_repr.py",
              "old": "            if access is AccessFlags.WRITE or access is AccessFlags.PUSH:\n                if isinstance(obj, Port) and obj.is_input():", "new": "            if access is AccessFlags.WRITE:\n                if isinstance(obj, Port) and obj.is_input():"},
